@@ -1,7 +1,6 @@
 (* Proofs/LedgerBasics.v — list / check-monad lemmas for the ledger model and
    the consequences of an accepted block (shared by C01, C02, C04). *)
-From Sky Require Import Base.Uint Model.ArithSpec Gen.Mathutil Model.Ledger Model.LedgerSpec
-  Proofs.UintLemmas Proofs.MathutilProofs.
+From Sky Require Import Base.Uint Model.Ledger Model.LedgerSpec.
 From Coq Require Import Lia ZifyBool Permutation.
 Open Scope Z_scope.
 
@@ -92,27 +91,6 @@ Qed.
 (* ---- sums *)
 Lemma sumZ_app a b : sumZ (a ++ b) = sumZ a + sumZ b.
 Proof. induction a as [|x r IH]; cbn [sumZ app]; lia. Qed.
-
-(* mathutil.AddUint64 folded over a list: the 64-bit result is the Z sum *)
-Lemma add_all_spec l : forall acc v, in_u 64 acc -> Forall (in_u 64) l ->
-  add_all acc l = Val (Some v) -> v = acc + sumZ l /\ in_u 64 v.
-Proof.
-  induction l as [|x r IH]; cbn [add_all sumZ]; intros acc v Ha Hl H.
-  - inversion H; subst. split; [lia|assumption].
-  - inversion Hl as [|? ? Hx Hr]; subst.
-    rewrite (AddUint64_spec acc x Ha Hx) in H. unfold ret_or_err in H.
-    destruct (acc + x <? 2 ^ 64) eqn:E; cbn [bind is_err] in H; [|discriminate].
-    assert (Hin : in_u 64 (acc + x)) by (unfold in_u in *; lia).
-    destruct (IH (acc + x) v Hin Hr H) as [H1 H2]. split; [lia|assumption].
-Qed.
-Lemma add_all_nopanic l : forall acc, in_u 64 acc -> Forall (in_u 64) l -> add_all acc l <> Panic.
-Proof.
-  induction l as [|x r IH]; cbn [add_all]; intros acc Ha Hl; [discriminate|].
-  inversion Hl as [|? ? Hx Hr]; subst.
-  rewrite (AddUint64_spec acc x Ha Hx). unfold ret_or_err.
-  destruct (acc + x <? 2 ^ 64) eqn:E; cbn [bind is_err]; [|discriminate].
-  apply IH; [unfold in_u in *; lia|assumption].
-Qed.
 
 (* ---- removing spent outputs *)
 Lemma NoDup_ids_filter (p : ux -> bool) l : NoDup (ids l) -> NoDup (ids (filter p l)).
